@@ -148,6 +148,7 @@ func TestVerifStmtLifecycle(t *testing.T) {
 	if err != nil {
 		t.Fatal(err)
 	}
+	defer fix.cleanup()
 	out, err := verifkit.OpenOut()
 	if err != nil {
 		t.Fatal(err)
@@ -162,7 +163,7 @@ func TestVerifStmtLifecycle(t *testing.T) {
 		var steps []c16Step
 		in := &c16Inst{rng: rand.New(rand.NewSource(c.ISeed)), kinds: map[[2]int]int{}, chunks: map[int][]byte{}}
 		se := fix.newSession(false)
-		realID := map[int]uint32{}   // handle ordinal -> id given by the proxy
+		realID := map[int]uint32{}    // handle ordinal -> id given by the proxy
 		lastClear := map[int]string{} // handle -> kind of the last command that (per the specification) cleared it
 		origin := map[string]string{} // literal -> "h<handle>:inline" / "h<handle>:long" (everything sent so far)
 		idOf := func(h int) uint32 {
